@@ -149,7 +149,7 @@ def build(tier):
                   "add_layer", "remove_layer", strict_remove=False)
     scalar_family("SimBa", MOD + "simba.EvolvableSimBa", "num_blocks", "min_blocks", "max_blocks", "min_mlp_nodes", "max_mlp_nodes",
                   "add_block", "remove_block", strict_remove=True)
-    P.native.append(dict(name="walk", adapter="c03:walk", thorough_only=False, payload={"mode": "search"},
+    P.native.append(dict(name="walk", adapter="c03:walk", thorough_only=True, payload={"mode": "search"},
                          bound="MLP, CNN, LSTM, SimBa, MultiInput(vector_mlp), QNetwork: all mutation words up to length 3 plus seeded walks of 40 steps; "
                                "forward output finite with declared shape for batch 1..3; strict reload from init_dict; clone reproduces outputs"))
     P.assumptions += ["sizes are mathematical integers", "explicit arguments satisfy hidden_layer >= 0, numb_new_nodes >= 1"]
